@@ -165,7 +165,8 @@ Proof.
   destruct (exec_body run hs st t _ (m_body (fe_meth fe))) as [fr1|x] eqn:B; [|discriminate].
   destruct (m_void (fe_meth fe)).
   - inversion H; subst. auto.
-  - destruct (eval fr1 (m_ret (fe_meth fe))) as [z1|x] eqn:E; [|discriminate]. inversion H; subst. auto.
+  - destruct (eval fr1 (m_ret (fe_meth fe))) as [z1|x] eqn:E; [|discriminate].
+    destruct (int_ok z1); [|discriminate]. inversion H; subst. auto.
 Qed.
 Lemma nested_self_g_inv : forall run g t m z fr fr1 r, nested_self_g run g t m z fr = inl (fr1, r) ->
   exists fe fr', alookup (method_key t m) (s_funcs g) = Some fe /\
@@ -285,7 +286,7 @@ Proof.
     inversion H; subst; simpl. split; [reflexivity|split; [reflexivity|]].
     apply keys_aset_present. apply alookup_in_keys. eauto.
   - destruct (eval_list fr es); [|discriminate]. inversion H; subst; simpl. auto.
-  - destruct (eval fr e); [|discriminate].
+  - destruct (eval fr e); [|discriminate]. destruct (negb (int_ok z)); [discriminate|].
     destruct (nested_self_g run g t m z fr) as [[fr1 r]|] eqn:C; [|discriminate].
     inversion H; subst; simpl. apply nested_self_g_inv in C as [fe [fr2 [_ [R ->]]]]. simpl.
     destruct (RB fe t (f_self fr) z (st_of g fr) fr2 r W R) as [E K]. simpl in E, K. auto.
@@ -492,7 +493,7 @@ Proof.
     inversion H; subst; simpl. split; [assumption|].
     intros k' NK. apply alookup_aset_other. intros ->. apply NK. apply HP. exists n. assumption.
   - destruct (eval_list fr es); [|discriminate]. inversion H; subst; simpl. auto.
-  - destruct (eval fr e); [|discriminate].
+  - destruct (eval fr e); [|discriminate]. destruct (negb (int_ok z)); [discriminate|].
     destruct (nested_self_g run g t m z fr) as [[fr1 r]|] eqn:C; [|discriminate].
     inversion H; subst; simpl. apply nested_self_g_inv in C as [fe [fr2 [L [R ->]]]]. simpl.
     split; [assumption|]. intros k NK.
